@@ -64,7 +64,7 @@ impl BlockAllocator {
         BlockStateTracker::register_block(data.id as usize, &data.file_path);
         FileStateTracker::register_file_if_absent(&data.file_path);
         FileStateTracker::add_block_to_file_state(&data.file_path);
-        FileStateTracker::set_block_locked(data.id as usize);
+        FileStateTracker::set_block_locked(&data.file_path, data.id as usize);
         let ret = data.clone();
         data.offset += DEFAULT_BLOCK_SIZE;
         data.id += 1;
@@ -126,7 +126,7 @@ impl BlockAllocator {
         BlockStateTracker::register_block(ret.id as usize, &ret.file_path);
         FileStateTracker::register_file_if_absent(&ret.file_path);
         FileStateTracker::add_block_to_file_state(&ret.file_path);
-        FileStateTracker::set_block_locked(ret.id as usize);
+        FileStateTracker::set_block_locked(&ret.file_path, ret.id as usize);
         data.offset += alloc_size;
         data.id += 1;
         self.unlock();
@@ -211,7 +211,7 @@ pub fn verif_block_states() -> Vec<(usize, String, bool)> {
     let r = map.read().unwrap();
     let mut v: Vec<_> = r
         .iter()
-        .map(|(k, b)| (*k, b.file_path.clone(), b.is_checkpointed.load(Ordering::Acquire)))
+        .map(|(k, b)| (k.1, b.file_path.clone(), b.is_checkpointed.load(Ordering::Acquire)))
         .collect();
     v.sort();
     v
@@ -238,35 +238,47 @@ struct BlockState {
     is_checkpointed: AtomicBool,
 }
 
+/// Block ids are unique only within one instance (every allocator starts at 1, recovery numbers
+/// the blocks it finds from 1), while the trackers below are process-global: a block is therefore
+/// identified by the directory of its instance together with its id. `scope` is the path of any
+/// WAL file of that instance.
+fn instance_of(scope: &str) -> String {
+    std::path::Path::new(scope)
+        .parent()
+        .map(|p| p.to_string_lossy().into_owned())
+        .unwrap_or_default()
+}
+
 pub(super) struct BlockStateTracker {}
 
 impl BlockStateTracker {
-    fn map() -> &'static RwLock<HashMap<usize, BlockState>> {
-        static MAP: OnceLock<RwLock<HashMap<usize, BlockState>>> = OnceLock::new();
+    fn map() -> &'static RwLock<HashMap<(String, usize), BlockState>> {
+        static MAP: OnceLock<RwLock<HashMap<(String, usize), BlockState>>> = OnceLock::new();
         MAP.get_or_init(|| RwLock::new(HashMap::new()))
     }
 
     pub(super) fn register_block(block_id: usize, file_path: &str) {
         let map = Self::map();
         if let Ok(mut w) = map.write() {
-            w.entry(block_id).or_insert_with(|| BlockState {
+            w.entry((instance_of(file_path), block_id)).or_insert_with(|| BlockState {
                 is_checkpointed: AtomicBool::new(false),
                 file_path: file_path.to_string(),
             });
         }
     }
 
-    pub(super) fn get_file_path_for_block(block_id: usize) -> Option<String> {
+    pub(super) fn get_file_path_for_block(scope: &str, block_id: usize) -> Option<String> {
         let map = Self::map();
         let r = map.read().ok()?;
-        r.get(&block_id).map(|b| b.file_path.clone())
+        r.get(&(instance_of(scope), block_id))
+            .map(|b| b.file_path.clone())
     }
 
-    pub(super) fn set_checkpointed_true(block_id: usize) {
+    pub(super) fn set_checkpointed_true(scope: &str, block_id: usize) {
         let path_opt = {
             let map = Self::map();
             if let Ok(r) = map.read() {
-                if let Some(b) = r.get(&block_id) {
+                if let Some(b) = r.get(&(instance_of(scope), block_id)) {
                     // Count a block once, however often a reader passes its end
                     if b.is_checkpointed.swap(true, Ordering::AcqRel) {
                         None
@@ -335,8 +347,8 @@ impl FileStateTracker {
         flush_check(file_path);
     }
 
-    pub(super) fn set_block_locked(block_id: usize) {
-        if let Some(path) = BlockStateTracker::get_file_path_for_block(block_id) {
+    pub(super) fn set_block_locked(scope: &str, block_id: usize) {
+        if let Some(path) = BlockStateTracker::get_file_path_for_block(scope, block_id) {
             let map = Self::map();
             if let Ok(r) = map.read() {
                 if let Some(st) = r.get(&path) {
@@ -346,8 +358,8 @@ impl FileStateTracker {
         }
     }
 
-    pub(super) fn set_block_unlocked(block_id: usize) {
-        if let Some(path) = BlockStateTracker::get_file_path_for_block(block_id) {
+    pub(super) fn set_block_unlocked(scope: &str, block_id: usize) {
+        if let Some(path) = BlockStateTracker::get_file_path_for_block(scope, block_id) {
             let map = Self::map();
             if let Ok(r) = map.read() {
                 if let Some(st) = r.get(&path) {
